@@ -148,12 +148,17 @@ def path_case(ck, name, p, closed, T0, T1):
         return bad('raises-' + type(e).__name__, 'raised %r' % e, 'path', repr(e))
     if len(cr) == 0:
         return bad('empty', 'returned an empty path', 'pieces', cr)
-    if not (abs(cr.start - p.point(T0)) <= 1e-9 * size) or not (abs(cr.end - p.point(T1)) <= 1e-9 * size):
+    # at a pen-up jump of the input one T stands for two points (the end of one sub-path, the start of the next): either is a correct end of the crop
+    jumps = [(x.end, y.start) for x, y in zip(p, list(p)[1:]) if x.end != y.start]
+    starts = [p.point(T0)] + [s_ for e_, s_ in jumps if abs(p.point(T0) - e_) <= 1e-9 * size]
+    ends = [p.point(T1)] + [e_ for e_, s_ in jumps if abs(p.point(T1) - s_) <= 1e-9 * size]
+    if not any(abs(cr.start - z_) <= 1e-9 * size for z_ in starts) or not any(abs(cr.end - z_) <= 1e-9 * size for z_ in ends):
         rep = 'repeated-segment' if name in ('there-and-back', 'rectangle-twice', 'two-equal-cubics') else 'endpoints'
         return bad(rep, 'starts at %r / ends at %r' % (cr.start, cr.end), (p.point(T0), p.point(T1)), (cr.start, cr.end))
+    breaks = [(x.end, y.start) for x, y in zip(p, list(p)[1:]) if x.end != y.start]      # pen-up jumps of the input: they stay where they are
     for a, b in zip(cr, list(cr)[1:]):
-        if not (abs(a.end - b.start) <= 1e-9 * size):
-            return bad('pieces-not-joined', 'consecutive pieces %r / %r' % (a, b), 'joined', (a.end, b.start))
+        if not (abs(a.end - b.start) <= 1e-9 * size) and not any(abs(a.end - e_) <= 1e-9 * size and abs(b.start - s_) <= 1e-9 * size for e_, s_ in breaks):
+            return bad('pieces-not-joined', 'consecutive pieces %r / %r' % (a, b), 'joined (or one of the jumps %s of the input)' % breaks, (a.end, b.start))
     try:
         want = p.length(T0, T1) if T0 < T1 else p.length(T0, 1) + p.length(0, T1)
     except Exception as e:      # noqa
@@ -234,8 +239,6 @@ def run(ck):
                 ck.disagree(key='Path.reversed/%s' % ('after-queries' if warm else 'fresh'), site='svgpathtools/path.py:Path.reversed',
                             what='%s: reversed()%s does not traverse the same points in opposite order with equal length' % (name, ' after length()/point()' if warm else ''),
                             case={'family': name, 'warm': warm}, expected='point(T) = original.point(1-T)', observed=[str(rv.point(0.25)), str(q.point(0.75))], driver='path')
-        if not p.iscontinuous():
-            continue            # crops are claimed for continuous paths; disconnected ones only take part in the reversed() check
         lens = [s.length() for s in p]
         tot = sum(lens)
         cum = [sum(lens[:i]) / tot for i in range(len(lens) + 1)]
